@@ -2746,7 +2746,10 @@ func (te *TemplateEngine) renderImages(content string, images map[string]*Templa
 // processImagePlaceholders 处理文档中的图片占位符
 func (te *TemplateEngine) processImagePlaceholders(doc *Document, data *TemplateData) error {
 	// 遍历文档元素，查找并替换图片占位符
-	for i, element := range doc.Body.Elements {
+	// 注意：不能在遍历 doc.Body.Elements 的同时修改它（一个段落可能展开为多个段落），
+	// 否则后面的元素会在错误的位置被处理，占位符会被跳过。这里构建一个新的切片。
+	result := make([]interface{}, 0, len(doc.Body.Elements))
+	for _, element := range doc.Body.Elements {
 		switch elem := element.(type) {
 		case *Paragraph:
 			// 检查段落是否包含图片占位符
@@ -2754,19 +2757,19 @@ func (te *TemplateEngine) processImagePlaceholders(doc *Document, data *Template
 			if err != nil {
 				return err
 			}
-
-			// 如果有图片替换，更新文档元素
-			if len(newElements) > 1 || (len(newElements) == 1 && newElements[0] != elem) {
-				// 移除原段落，插入新元素（可能包含图片段落）
-				doc.Body.Elements = append(doc.Body.Elements[:i], append(newElements, doc.Body.Elements[i+1:]...)...)
-			}
+			// 原段落被替换为新元素（可能包含图片段落）；没有占位符时返回的是原段落本身
+			result = append(result, newElements...)
 		case *Table:
 			// 处理表格中的图片占位符 (Fix for Issue #91)
 			if err := te.processImagePlaceholdersInTable(elem, data, doc); err != nil {
 				return err
 			}
+			result = append(result, element)
+		default:
+			result = append(result, element)
 		}
 	}
+	doc.Body.Elements = result
 	return nil
 }
 
@@ -2776,34 +2779,21 @@ func (te *TemplateEngine) processImagePlaceholdersInTable(table *Table, data *Te
 		for cellIdx := range table.Rows[rowIdx].Cells {
 			cell := &table.Rows[rowIdx].Cells[cellIdx]
 			// 处理单元格中的每个段落
+			// 注意：一个段落可能展开为多个段落，因此构建新的段落列表，而不是在遍历时修改 cell.Paragraphs
+			newParagraphs := make([]Paragraph, 0, len(cell.Paragraphs))
 			for paraIdx := range cell.Paragraphs {
 				para := &cell.Paragraphs[paraIdx]
 				newElements, err := te.processImagePlaceholdersInParagraph(para, data, doc)
 				if err != nil {
 					return err
 				}
-
-				// 如果有图片替换
-				if len(newElements) > 0 {
-					// 检查返回的元素是否与原段落不同
-					if len(newElements) == 1 {
-						if newPara, ok := newElements[0].(*Paragraph); ok {
-							cell.Paragraphs[paraIdx] = *newPara
-						}
-					} else {
-						// 多个元素的情况：替换当前段落为第一个，其余追加
-						newParagraphs := make([]Paragraph, 0, len(cell.Paragraphs)-1+len(newElements))
-						newParagraphs = append(newParagraphs, cell.Paragraphs[:paraIdx]...)
-						for _, elem := range newElements {
-							if p, ok := elem.(*Paragraph); ok {
-								newParagraphs = append(newParagraphs, *p)
-							}
-						}
-						newParagraphs = append(newParagraphs, cell.Paragraphs[paraIdx+1:]...)
-						cell.Paragraphs = newParagraphs
+				for _, elem := range newElements {
+					if p, ok := elem.(*Paragraph); ok {
+						newParagraphs = append(newParagraphs, *p)
 					}
 				}
 			}
+			cell.Paragraphs = newParagraphs
 		}
 	}
 	return nil
